@@ -28,7 +28,7 @@ GHOST = 'SPos G_P0; SPos G_P1; uint32_t G_SQ; uint32_t G_PC; int G_I, G_J; uint3
 PRE_UNDO = ('__CPROVER_requires(sp_state_ok(&G_P0) && sp_pseudo_legal(&G_P0, move) && move_class(&G_P0, move) == G_CLASS && G_SQ < 64 && G_PC >= 1 && G_PC <= 12)\n'
             '__CPROVER_requires(wf_pos(self) && sp_is(self, &G_P1) && hash_ok(self))\n'
             '__CPROVER_requires(moveinfo == spec_mi_pack(sp_captured_kind(&G_P0, move), G_P0.rights, G_P0.ep, sp_is_ep(&G_P0, move), G_P0.half))\n'
-            '__CPROVER_requires(G_P0.half <= 150 && self->_history_counter >= 2 && self->_history_counter <= 800)\n'
+            '__CPROVER_requires(G_P0.half <= 150 && G_P0.ply >= 0 && G_P0.ply < 100000 && self->_history_counter >= 2 && self->_history_counter <= 800)\n'
             '__CPROVER_requires(sp_kind(sp_captured_code(&G_P0, move)) == 0 || self->_piece_count[sp_captured_code(&G_P0, move)] < 10)\n'
             '__CPROVER_requires(spec_move_promo(move) == 0 || self->_piece_count[sp_piece(G_P0.side, 1)] < 10)\n'
             '__CPROVER_assigns(__CPROVER_object_whole(self))\n')
